@@ -44,10 +44,12 @@ package bmnumbers
 
 //@ func binImportNoSize(re *regexp.Regexp, input string) (*BMNumber, error)
 //@   ensures stored: result1 == nil ==> storedWidth(result)
+//@   ensures exact: result1 == nil ==> result.bits == len(extstr("regexp.Regexp.ReplaceAllString", re, input, "${bin}"))
 //@   loop 1: invariant consumed: 0 <= i && len(binNum) <= pre(len(binNum)) && (len(binNum) > 0 ==> len(binNum) + 8 * i == pre(len(binNum)))
 
 //@ func binImportWithSize(re *regexp.Regexp, input string) (*BMNumber, error)
 //@   ensures stored: result1 == nil ==> storedWidth(result)
+//@   ensures fits: result1 == nil ==> len(extstr("regexp.Regexp.ReplaceAllString", re, input, "${bin}")) <= result.bits
 //@   loop 1: invariant consumed: 0 <= i && len(binNum) <= pre(len(binNum)) && (len(binNum) > 0 ==> len(binNum) + 8 * i == pre(len(binNum))) &&
 //@             (len(binNum) == 0 ==> 8 * i >= pre(len(binNum)))
 //@   loop 1: invariant room: pre(len(binNum)) <= binSize && 8 * len(newNumber.number) >= binSize && ((binSize == 0 && len(newNumber.number) <= 1) || (binSize >= 1 && 8 * len(newNumber.number) < binSize + 8)) &&
@@ -65,3 +67,17 @@ package bmnumbers
 
 //@ func unsignedImportWithSize(re *regexp.Regexp, input string) (*BMNumber, error)
 //@   ensures stored: result1 == nil ==> storedWidth(result) && result.bits <= 64
+
+// ---- hex text --------------------------------------------------------------------------------------------------
+
+// The printed hex literal always carries at least one digit after the size (so the sized-hex notation accepts it
+// again), and no leading zero unless it is the only digit.
+//@ func (b Hex) ExportString(n *BMNumber) (string, error)
+//@   requires n != nil
+//@   ensures shape: result1 == nil && len(result) >= len(itoa(n.bits)) + 4 && sub(result, 0, len(itoa(n.bits)) + 4) == cat(cat("0x<", itoa(n.bits)), ">")
+//@   ensures digits: len(n.number) >= 1 ==> len(result) >= len(itoa(n.bits)) + 5
+//@   ensures stripped: len(result) > len(itoa(n.bits)) + 5 ==> result[len(itoa(n.bits)) + 4] != '0'
+//@   assigns nothing
+//@   loop 1: modifies nothing
+//@   loop 1: invariant built: len(result) == 2 * (len(n.number) - 1 - i) && -1 <= i && i < len(n.number)
+//@   loop 2: invariant kept: (pre(len(result)) >= 1 ==> len(result) >= 1) && len(result) <= pre(len(result))
